@@ -124,7 +124,11 @@ def gen_web(seed, tier, focus="C41"):
     return {"engine": "websim", "seed": seed, "focus": focus,
             "cfg": {"nservers": ch.randint("config", "nservers", 2, 4), "k": 1, "n": 2,
                     "net": {"threads": ch.pick("config", "threads", ["sync", "sync", "async"]), "batch": ch.pick("config", "batch", [0, 0, 0, 0.001, 0.02, 0.3]), "lat_profile": ch.pick("config", "lat", ["uniform", "heavy", "fifo"]), "jitter": 0.02},
-                    "dirfmt": ch.pick("config", "dirfmt", ["sdmf", "sdmf", "mdmf"])},
+                    "dirfmt": ch.pick("config", "dirfmt", ["sdmf", "sdmf", "mdmf"]),
+                    # the gateway's access blacklist (private/access.blacklist) names some of the mutable objects: it answers 403
+                    # for them and wraps them (ProhibitedNode) wherever it builds a node for them, also when they are re-linked
+                    "blacklist": (ch.pick("config", "blacklisted", [["mut.txt"], ["sub/m.txt"], ["deep"], ["mut.txt", "deep"], ["locked/lm.txt"]])
+                                  if ch.chance("config", "blacklist", 0.25) else [])},
             "ops": ops, "faults": []}
 
 
@@ -229,6 +233,16 @@ def exec_web(case):
         must(root.set_node(u"immdir", immdir))
         reg(immdir, "dir", "immdir")
 
+        if cfg.get("blacklist"):
+            from allmydata.util import base32 as b32_
+            with open(c.blacklist.blacklist_fn, "wb") as f_:
+                for n_ in nodes:
+                    if n_["name"] in cfg["blacklist"] and n_["si"]:
+                        f_.write(b32_.b2a(n_["si"]) + b" prohibited for this run\n")
+            c.blacklist.last_mtime = None
+            probe("gateway-blacklist-entries", len(cfg["blacklist"]))
+        # the harness's own look at the grid goes through a second client (no web server, no blacklist)
+        oc = g.add_client(k=cfg["k"], happy=1, n=cfg["n"])
         by_si = {n["si"]: n for n in nodes if n["si"]}
         all_rw = {n["rw"]: n for n in nodes if n["rw"]}
         all_ro = {n["ro"]: n for n in nodes if n["ro"] and n["mutable"]}
@@ -263,7 +277,7 @@ def exec_web(case):
                 n = nodes[i]
                 if n["kind"] != "dir" or not n["rw"]:
                     continue
-                st, kids = run(c.create_node_from_uri(n["rw"]).list())
+                st, kids = run(oc.create_node_from_uri(n["rw"]).list())
                 if st != "ok":
                     continue
                 for nm, (child, md) in kids.items():
@@ -274,7 +288,7 @@ def exec_web(case):
 
         def listing(n):
             cap = n["rw"] or n["ro"]
-            st, kids = run(c.create_node_from_uri(cap).list())
+            st, kids = run(oc.create_node_from_uri(cap).list())
             return sorted(kids) if st == "ok" else []
 
         # ------------------------------------------------------------------- requests
@@ -313,7 +327,7 @@ def exec_web(case):
                 segs.append(nm)
                 nxt = None
                 if cur is not None and cur["kind"] == "dir" and nm in names:
-                    st, ch_ = run(c.create_node_from_uri(cur["rw"] or cur["ro"]).get(nm))
+                    st, ch_ = run(oc.create_node_from_uri(cur["rw"] or cur["ro"]).get(nm))
                     if st == "ok":
                         for n in nodes:
                             if n["ro"] == ch_.get_readonly_uri():
@@ -387,7 +401,7 @@ def exec_web(case):
                     headers["content-type"] = b"multipart/form-data; boundary=" + bnd
                 elif t == "uri":
                     if not op["newname"] and cur is not None and cur["kind"] == "dir" and exist in names and op["x"] % 3 == 1:
-                        stx, chx = run(c.create_node_from_uri(cur["rw"] or cur["ro"]).get(exist))
+                        stx, chx = run(oc.create_node_from_uri(cur["rw"] or cur["ro"]).get(exist))
                         if stx == "ok" and chx.get_write_uri() is not None and chx.get_readonly_uri() is not None:
                             bodycap = chx.get_readonly_uri()      # diminish an existing link
                     q += ["name=" + (fresh if op["newname"] else exist), "uri=" + bodycap.decode("ascii")]
@@ -402,7 +416,7 @@ def exec_web(case):
                     q += ["from_name=" + exist, "to_name=" + fresh, "to_dir=" + (tgt["rw"] or tgt["ro"]).decode("ascii")]
                 else:
                     kidcap = bodycap
-                    key = "rw_uri" if kidcap.startswith((b"URI:SSK:", b"URI:DIR2:", b"URI:MDMF:")) else "ro_uri"
+                    key = "rw_uri" if kidcap.startswith((b"URI:SSK:", b"URI:DIR2:", b"URI:MDMF:", b"URI:DIR2-MDMF:")) else "ro_uri"
                     kids = {(fresh if op["newname"] else exist): ["filenode", {key: kidcap.decode("ascii")}]}
                     if cur is not None and cur["kind"] == "dir":
                         link_expect.append((cur, (fresh if op["newname"] else exist), kidcap if key == "rw_uri" else None))
@@ -447,7 +461,12 @@ def exec_web(case):
                 bad("private-area-open", "GET /private/logs/v1 with token kind %r was not answered 401: the request was handed to the protected resource" % (facts["private"],))
                 return
             if not box:
-                bad("request-hung", "%s: the response never finished (quiescent)" % where)
+                if would_modify(op) and not auth:
+                    # "is refused": a modifying request without the authority for it must get its refusal
+                    bad("request-hung", "%s: the response never finished (quiescent)" % where)
+                else:
+                    # outside C41's statement (counted; see DESIGN 6, observations)
+                    probe("response-never-finished-" + op["kind"])
                 return
             if isinstance(box[0], Exception):
                 probe("request-raised-" + type(box[0]).__name__)
@@ -496,7 +515,7 @@ def exec_web(case):
                         sig="C41.not-refused.%s" % op["kind"])
             if code is not None and 200 <= code < 300 and not overlapped:
                 for (prec, lname, given_rw) in facts.get("link_expect", []):
-                    stl, got_ = run(c.create_node_from_uri(prec["rw"] or prec["ro"]).get_child_and_metadata(lname), 400_000)
+                    stl, got_ = run(oc.create_node_from_uri(prec["rw"] or prec["ro"]).get_child_and_metadata(lname), 400_000)
                     if stl != "ok":
                         continue
                     stored_rw = got_[0].get_write_uri()
